@@ -537,10 +537,24 @@ CmdEXEC(S, c, a, tm, obs) ==
           ELSE IF "may" \in st THEN SOut(RNilArr, cleared) \cup run
           ELSE run
 
-Exec1(S, c, a, tm, obs, inTxn) ==
+(* KNOWN FINDING lenient_int: every integer argument, and the stored value the INCR family / HINCRBY read, is parsed with
+   a lenient decimal parser ('+5', '007', '-0' are accepted where Redis' string2ll refuses them).  Where the reference
+   refuses the request (all outcomes are errors) the finding admits, tagged, what the command does when every such
+   argument / stored value is read as the integer it denotes. *)
+LooseOnly(b) == IsLooseInt(b) /\ ~IsCanonInt(b)
+CanonOf(b) == BigToBytes(ParseBig(b))
+LenientArgs(a) == [i \in 1..Len(a) |-> IF i >= 2 /\ LooseOnly(a[i]) THEN CanonOf(a[i]) ELSE a[i]]
+LenientK(name, a, K) ==
+  IF name \in {"INCR", "DECR", "INCRBY", "DECRBY"} /\ Len(a) >= 2 /\ IsT(K, a[2], "string") /\ LooseOnly(K[a[2]].v)
+  THEN SetV(K, a[2], CanonOf(K[a[2]].v))
+  ELSE IF name = "HINCRBY" /\ Len(a) >= 3 /\ IsT(K, a[2], "hash") /\ a[3] \in DOMAIN K[a[2]].v /\ LooseOnly(K[a[2]].v[a[3]])
+  THEN SetV(K, a[2], [K[a[2]].v EXCEPT ![a[3]] = CanonOf(@)])
+  ELSE K
+
+Exec0(S, c, a, tm, obs, inTxn) ==
   LET name == NameOf(a)
       d == S.conns[c].db
-      raw ==
+  IN
         IF IsDataCmd(name) THEN Lift(S, d, DataCmd(name, a, S.dbs[d], tm, obs))
         ELSE CASE name = "SELECT" -> CmdSELECT(S, c, a)
                [] name = "PING" -> CmdPING(S, a)
@@ -567,6 +581,19 @@ Exec1(S, c, a, tm, obs, inTxn) ==
                [] name = "BRPOP" -> CmdBPOP(S, c, a, tm, obs, FALSE, inTxn)
                [] name = "?" -> SFail(S)
                [] OTHER -> SOut(RAny, S)
+
+Exec1(S, c, a, tm, obs, inTxn) ==
+  LET name == NameOf(a)
+      d == S.conns[c].db
+      strict == Exec0(S, c, a, tm, obs, inTxn)
+      raw ==
+        IF "lenient_int" \in Deviations /\ name \notin {"EVAL", "EVALSHA", "EXEC", "?"} /\ (\A o \in strict : o.r.t = "err")
+        THEN LET a2 == LenientArgs(a)
+                 K2 == LenientK(name, a, S.dbs[d])
+             IN IF a2 = a /\ K2 = S.dbs[d] THEN strict
+                ELSE strict \cup {[o EXCEPT !.dv = @ \cup {"lenient_int"}] :
+                                    o \in Exec0([S EXCEPT !.dbs[d] = K2], c, a2, tm, obs, inTxn)}
+        ELSE strict
   IN {[o EXCEPT !.S = BgTrack(S, ScanTrack(S, MarkWatch(S, o.S, d, name, a, o.r)))] : o \in raw}
 
 (* commands that are not queued inside MULTI *)
